@@ -50,6 +50,17 @@ def wide(rng, count):
         n = rng.randint(65, 70)
         base = rng.sample(range(1, n + 1), n)
         D = []
+        if rng.random() < .7:
+            # one total order and the same order with many adjacent pairs tied: for those pairs tying and ordering
+            # cost exactly the same under the p = 1/2 schemes (tie preferred)
+            r2 = [[e] for e in base]
+            j = 0
+            while j < len(r2) - 1:
+                if rng.random() < .4:
+                    r2[j:j + 2] = [sorted(r2[j] + r2[j + 1])]
+                j += 1
+            out.append([[[e] for e in base], r2])
+            continue
         for _ in range(rng.randint(2, 3)):
             r = [[e] for e in base]
             for _ in range(rng.randint(3, 10)):
@@ -107,7 +118,7 @@ def stages(tier, rng, only=None, prop=None):
         cs = _cases(grids.datasets(3, 2)[::3] + [ac.random_dataset(rng, 4, 4, nmin=3) for _ in range(60)], SCHEMES[:1],
                     False, 60)
         for k, c in enumerate(cs):
-            c["lex"] = k % 5
+            c["lex"] = k % 7
         return cs
     out.append(Stage("lexicographic_penalties", "Trace_Kwik", kwikrun.run_all_schedules, lex_kwik, _nt, kwikrun.init,
                      post=kwikrun.flatten, aux=aux))
